@@ -1030,7 +1030,7 @@ Section EmitPaths.
         apply (raw_group f base d' c raw); assumption.
       + eapply fold_out_inv; [|exact H]. intros c Hin ws1 o1 H1. rewrite Forall_forall in HF.
         apply (inv_weaken (push base d') [c]); [|apply (HF c Hin _ _ _ _ _ _ H1)].
-        intros c0 raw [<-|[]] Hr. exists c. split; [left; reflexivity | assumption].
+        intros c0 raw [<-|[]] Hr. exists c. split; assumption.
   Qed.
 
   (* every input-section statement and every recorded path of emit_sff, at any depth of nesting and
@@ -1122,6 +1122,43 @@ Proof.
   reflexivity.
 Qed.
 
+Lemma display_push p q :
+  is_absolute q = false -> is_empty p = false ->
+  display (push p q) = join "/" (components p ++ rel_comps q)%list.
+Proof. intros Hq Hp. unfold display. rewrite components_push, Hq, Hp. reflexivity. Qed.
+
+(* partial_segment: the object referenced for a segment is <name>.o pushed on the folder *)
+Lemma partial_segment_unfold d rt folder seg acc :
+  should_emit rt (sg_conds seg) = true ->
+  partial_segment d rt folder seg acc =
+  (do sub <- add_single_segment rt (doc_settings d) cfg_sub_partial (doc_vram_classes d) seg ws0;
+   do o <- add_segment rt (doc_settings d) cfg_main_partial (doc_vram_classes d)
+             (clone_with_new_files seg [new_object (push folder (sg_name seg ++ ".o"))]) (fst acc);
+   Ok (fst o,
+       (snd o, (snd acc ++ [(sg_name seg,
+                             WriterOut (version_stmts rt ++ fst sub)%list (ws_paths (snd sub)))])%list))).
+Proof. intro H. unfold partial_segment. rewrite H. reflexivity. Qed.
+
+Lemma object_name_comps name : contains_char "/" name = false -> rel_comps (name ++ ".o") = [name ++ ".o"].
+Proof.
+  intro H. unfold rel_comps. rewrite split_on_none.
+  - cbn [drop_dots]. destruct name as [|a name]; [reflexivity|].
+    cbn [append is_empty orb]. cbn [String.eqb]. destruct (Ascii.eqb a "."); [|reflexivity].
+    destruct name; reflexivity.
+  - rewrite contains_app, H. reflexivity.
+Qed.
+
+Lemma partial_object_components folder name :
+  is_empty folder = false -> contains_char "/" name = false ->
+  components (push folder (name ++ ".o")) = (components folder ++ [(name ++ ".o")%string])%list.
+Proof.
+  intros Hf Hn. rewrite components_push, Hf.
+  assert (Ha : is_absolute (name ++ ".o") = false).
+  { destruct name as [|a name]; [reflexivity|]. cbn [contains_char] in Hn. unfold is_absolute.
+    cbn [append starts_with_char]. destruct (Ascii.eqb "/" a); [discriminate | reflexivity]. }
+  rewrite Ha, object_name_comps by assumption. reflexivity.
+Qed.
+
 (* ---------- concrete instances of the hypotheses (used by the Examples) ---------- *)
 
 Lemma ex_keys_1 : Keys "x{a}_{b}.o" ["a"; "b"].
@@ -1157,3 +1194,24 @@ Proof.
   intros Ha Hz. exists ["a"], ["yy"; "b"]. split; [reflexivity|]. split; [|assumption].
   intros k [<-|[]]. destruct (opt_get rt "a") as [v|] eqn:E; [exists v; first [exact E | reflexivity] | discriminate].
 Qed.
+
+(* a file tree: a group holding an object, under a two-level base *)
+Definition ex_segment : segment :=
+  Segment "main" [] None None None None "" None no_conds [".text"] [".bss"] None None None None None
+          [] [] true None [] KAbsent.
+Definition ex_object (p : string) : file_info := new_object p.
+Definition ex_group_of (dir : string) (l : list file_info) : file_info :=
+  FileInfo "" KGroup "" 0%N "" "" [] l dir no_conds KAbsent.
+Definition ex_tree : file_info := ex_group_of "lib{w}" [ex_group_of "./x//{v}/." [ex_object "{v}{w}.o"]].
+Definition ex_inputs (rt : runtime) (base : string) : res (list stmt) :=
+  match emit_sff rt Splat cfg_normal ex_segment [".text"] ex_tree (chain_fuel ex_segment) [] ".text" base ws0 with
+  | Ok o => Ok (fst o)
+  | Err e => Err e
+  end.
+
+Lemma ex_relative : Forall relative ["lib1"; "x/eu"; "eu1.o"].
+Proof. repeat constructor. Qed.
+
+(* run-time settings of the Examples: a repeated key (the last value wins), an empty value *)
+Definition rt_ex : runtime := Runtime [("a", "X"); ("b", "Y"); ("e", ""); ("a", "Z")] true.
+Definition rt_ex2 : runtime := Runtime [("v", "eu"); ("w", "1")] true.
